@@ -152,7 +152,7 @@ func (e *Env) eval(x Expr) Val {
 					et = types.Typ[types.Byte]
 				}
 			}
-			r := SeqNth(base.T, idx.T)
+			r := fc0(e).elemGet(base.T, idx.T, et)
 			if e.inQuant == 0 {
 				e.addSide(fc0(e).objInvFact(e.heap, e.alloc, r, et))
 			}
@@ -655,7 +655,7 @@ func (e *Env) evalCall(x *ECall) Val {
 		if a.Typ != nil {
 			st = types.NewSlice(a.Typ)
 		}
-		return Val{T: SeqUnit(a.T), Typ: st}
+		return Val{T: SeqUnit(fc.elemPut(a.T, a.Typ)), Typ: st}
 	case "empty":
 		s, t, err := u.specSort(x.Raw)
 		if err != nil {
@@ -1027,4 +1027,26 @@ func (fc *FuncCtx) anyTypeID(a *Term) *Term {
 					Ite(is("a_f64"), App(SInt, "a_f64_ty", a),
 						Ite(is("a_ref"), App(SInt, "a_ref_ty", a),
 							Ite(is("a_fn"), App(SInt, "a_fn_ty", a), App(SInt, "a_oth_ty", a))))))))
+}
+
+
+// elemGet / elemPut: read and write elements of slice sequences, unboxing/boxing
+// sequence-valued elements.
+func (fc *FuncCtx) elemGet(seq, idx *Term, et types.Type) *Term {
+	raw := SeqNth(seq, idx)
+	if et != nil && fc.u.boxedElem(et) && raw.Sort == SInt {
+		s := fc.u.sortOf(et)
+		un := "unbox_" + sanitize(string(s))
+		fc.d.Fun("box_"+sanitize(string(s)), []Sort{s}, SInt)
+		fc.d.Fun(un, []Sort{SInt}, s)
+		return App(s, un, raw)
+	}
+	return raw
+}
+
+func (fc *FuncCtx) elemPut(v *Term, et types.Type) *Term {
+	if v.Sort.IsSeq() {
+		return fc.box(v)
+	}
+	return v
 }
